@@ -102,6 +102,10 @@ static void vt_d(double v) { long long b; memcpy(&b, &v, 8); vt_i(b); }
 static void vt_f(float v) { int b; memcpy(&b, &v, 4); vt_i(b); }
 static void vt_s(const char *s, long n) { vt_open(); if (!s) { fputs("NULL", vt_fp); } else { fprintf(vt_fp, "%ld:[", n); fwrite(s, 1, n, vt_fp); fputs("]", vt_fp); } fflush(vt_fp); }
 static void vt_z(const char *s) { vt_s(s, s ? (long) strlen(s) : 0); }
+#ifdef __cplusplus
+extern "C"
+#endif
+void vt_marker(const char *s) { vt_txt("CALL "); vt_txt(s); vt_txt("\n"); }
 """
 
 
